@@ -64,6 +64,10 @@ PowOK == st = 2 /\ a # FZero => \A n \in NS, p \in PS, rnd \in Modes :
             PostPowInt(a, n, p, rnd, [k |-> "f", v |-> APowInt(a, n, p, rnd)])
 RoundIntOK == st = 2 => \A kind \in {"floor", "ceil", "nint"} :
             ARoundInt(a, CASE kind = "floor" -> "f" [] kind = "ceil" -> "c" [] OTHER -> "n") = IntPartExpected(kind, a, 0, "n")
+SqrtOK == st = 2 /\ a.s = 0 => \A p \in PS, rnd \in Modes :
+            LET r == ASqrt(a, p, rnd) IN IF a = FZero THEN r = FZero ELSE Canonical(r) /\ IsRoundSqrt(r, Val(a), p, rnd)
+EmitSqrt == st = 2 /\ a.s = 0 /\ b = FZero => \A p \in PS, rnd \in Modes :
+            LET r == ASqrt(a, p, rnd) IN PrintT(<<"S", a.s, a.m, a.e, a.bc, p, rnd, r.s, r.m, r.e, r.bc>>)
 EmitPow == st = 2 /\ a # FZero /\ b = FZero => \A n \in NS, p \in PS, rnd \in Modes :
             LET r == APowInt(a, n, p, rnd) IN PrintT(<<"P", a.s, a.m, a.e, a.bc, n, p, rnd, r.s, r.m, r.e, r.bc>>)
 EmitRoundInt == st = 2 /\ b = FZero => \A rnd \in {"f", "c", "n"} :
